@@ -588,7 +588,7 @@ func runCaseRaw(c Case, res *lib.Result) string {
 
 func Run(o lib.Opts) {
 	res := lib.NewResult("C12", o.Tier, o.Seed)
-	res.Rule = "one splitmix64 stream: (next) ManifestGet / ManifestDelete against an upstream with 0-2 mirrors of distinct priorities, retry limit 1-5 and a reply script over {ok, connection reset, 429/408/504/502/500, 404/416, 401 accepted/refused, 403/400/503/409} of length 0-9, hosts attempted and outcome compared with the Coq model; (mutate) each mutating API with mirrors configured; (transient) k < limit transient faults before normal service for ManifestGet/BlobGet/ManifestPut; (order) first host tried vs documented order; (resume) blob reads with 0-6 mid-body drops; non-trivial = script with a failure; distinct by case"
+	res.Rule = "one splitmix64 stream: (next) ManifestGet / ManifestDelete against an upstream with 0-2 mirrors of distinct priorities, retry limit 1-5 and a reply script over {ok, connection reset, 429/408/504/502/500, 404/416, 401 accepted/refused, 403/400/503/409} of length 0-9, hosts attempted and outcome compared with the Coq model; (mutate) each mutating API with mirrors configured; (transient) k < limit transient faults before normal service for ManifestGet/BlobGet/ManifestPut; (order) first host tried vs documented order; (resume) blob reads with 0-6 mid-body drops; (backoff) 16 series of ManifestHead calls on one host consuming a script of 2-11 replies over {ok, connection error, 429/500/502/504/408/503/400, 404, one 429 with Retry-After: 1} followed by 0-8 successful calls, retry limit 3-6, delays 1 ms / 8 ms, with the hook snapshot of the host's backoff bookkeeping at every request; non-trivial = script with a failure; distinct by case"
 	if o.Replay != "" {
 		var f struct{ Case Case }
 		b, err := os.ReadFile(o.Replay)
